@@ -125,7 +125,8 @@ def run(chk):
         ops.append({"op": "group_rows", "tbl": tbl})
         checks.append(("groupby", meta, core.call_real(lambda: [[skey(k), list(d["s"])] for k, d in sorted(list(df.groupby("g")))]), nt))
         # pcDelta_grouped / cross, edge vectors and bins = 0: compared with direct pcDelta of the group rows (composition)
-        for bins in ([0, 1, 2, 3, 4], 0, np.arange(0, 5)):          # edge vectors as a list and as a NumPy array; the bins = 0 form
+        # edge vectors as a list and as a NumPy array; the bins = 0 form; edges whose LAST one is a distance that occurs (the last bin is closed)
+        for bins in ([0, 1, 2, 3, 4], 0, np.arange(0, 5), [0, 1, 2]):
             real_g = core.call_real(lambda: ds.pcDelta_grouped(df, "g", "s", bins=bins))
             real_c = core.call_real(lambda: ds.pcDelta_grouped_cross(df, "g", "s", condensed=True, bins=bins)) if len(sorted_keys) > 1 else None
             is0 = isinstance(bins, int) and bins == 0
